@@ -32,3 +32,6 @@ def run(ctx, R):
     loopbind.check_ctor_chains(ctx, R)
     loopbind.check_thread_site(ctx, R)
     loopbind.check_schedule_on_self_loop(ctx, R)
+
+
+META['level'] += ' The asynchronous test is the first thing get_io_loop does; _inform_* percolate unconditionally; RefCounters created by nodes are bound to self.loop.'
